@@ -140,7 +140,7 @@ func init() {
 	reg(&Prop{ID: "C14", Level: "exploration",
 		Quick:    Tier{Cases: 48000, PerJob: 3000, Seconds: 70},
 		Thorough: Tier{Cases: 2400000, PerJob: 40000, Seconds: 1500},
-		Rule:     "one case = one of {chunk GET/HEAD/PUT through the real RemoteHTTP client and HTTPHandler over an in-process transport, for every combination of client/server -u, upstream format, verify flags per hop; index GET/PUT through RemoteHTTPIndex and HTTPIndexHandler (optionally chained behind a second index server) and HEAD on the index handler; a casync-protocol session of 1..8 requests against ProtocolServer over a pipe with byte-wise fragmentation and the connection cut after a tape-chosen byte} x response script (0..7 transient failures out of {connection reset, 500, 503, short body, response delayed past the client time-out}, then served / 404 / 400 / 403) x error-retry 0..5 x back-off base 1..500 ms, all in fake time; oracle: payload byte-identical, missing <=> ChunkMissing/NoSuchObject/false/404, failures never reported as missing or success, transient runs shorter than the budget invisible, requests seen == min(f+1, max(1, error-retry)), simulated time spent == documented linear back-off (+ time-outs); distinct = distinct (class incl. script shape, trace hash / tape); non-trivial = a transport fault fired or a multi-request session ran; 1/100 of the cases are process-level: the real `desync chunk-server [-u] [-w]` or `desync index-server [-w]` on a loopback port over a local store, talked to by the real HTTP client (present / missing / HEAD / PUT); `desync cat --config cfg [-e E] [-b I]` against a server answering the first f requests per object with 503 (budget = config store-options unless -e is given; attempts per fetch bounded, f < budget invisible, f >= budget an error); the casync protocol end to end: RemoteSSHStore (sequential requests, FIFO session pool modelled) or `desync extract|cache -s ssh://` over an ssh shim that runs the real `desync pull` on a compressed or (config file) uncompressed local store, with chunks missing and the link dying after n bytes of server output",
+		Rule:     "one case = one of {chunk GET/HEAD/PUT through the real RemoteHTTP client and HTTPHandler over an in-process transport, for every combination of client/server -u, upstream format, verify flags per hop; index GET/PUT through RemoteHTTPIndex and HTTPIndexHandler (optionally chained behind a second index server) and HEAD on the index handler; a casync-protocol session of 1..8 requests against ProtocolServer over a pipe with byte-wise fragmentation and the connection cut after a tape-chosen byte} x response script (0..7 transient failures out of {connection reset, 500, 503, short body, response delayed past the client time-out}, then served / 404 / 400 / 403) x error-retry 0..5 x back-off base 1..500 ms, all in fake time; oracle: payload byte-identical, missing <=> ChunkMissing/NoSuchObject/false/404, failures never reported as missing or success, transient runs shorter than the budget invisible, requests seen == min(f+1, max(1, error-retry)), simulated time spent == documented linear back-off (+ time-outs); distinct = distinct (class incl. script shape, trace hash / tape); non-trivial = a transport fault fired or a multi-request session ran; 1/100 of the cases are process-level: the real `desync chunk-server [-u] [-w]` or `desync index-server [-w]` on a loopback port over a local store, talked to by the real HTTP client (present / missing / HEAD / PUT); `desync cat --config cfg [-e E] [-b I]` against a server answering the first f requests per object with 503 (budget = config store-options unless -e is given; attempts per fetch bounded, f < budget invisible, f >= budget an error); the casync protocol end to end: RemoteSSHStore (sequential requests, FIFO session pool modelled) or `desync extract|cache -s ssh://` over an ssh shim that runs the real `desync pull` on a compressed or (config file) uncompressed local store, with chunks missing and the link dying after n bytes of server output; a tenth of the cases let 2..4 clients fetch 1..4 of 2..4 indexes and chunks each from one index / chunk handler at the same time under the seeded scheduler, through a response writer that holds the handler's slice across a scheduling point (a slow client): every response must be the object asked for",
 		Assumptions: []string{
 			"client and server agree on -u (the chunk file extension is part of the request path); mismatched pairs are a configuration error and not generated",
 			"after a missing chunk the protocol server ends the session; later requests on that session may fail but must not be answered wrongly",
@@ -152,7 +152,7 @@ func init() {
 	reg(&Prop{ID: "C04", Level: "fault_enumeration",
 		Quick:    Tier{Cases: 4800, PerJob: 300, Seconds: 70},
 		Thorough: Tier{Cases: 400000, PerJob: 5000, Seconds: 1500},
-		Rule:     "one case = generated index (0..200 chunks, 1/12 of the cases 250..1050 chunks, sizes <= max, random IDs, arbitrary extra feature flags, SHA512/256 or SHA256 process digest) written with Index.WriteTo; the bytes must parse with the independent caibx parser to the same table (tail marker offsets/sizes included); read back through a fragmenting stream reader, LocalIndexStore, RemoteHTTPIndex+HTTPIndexHandler (also stored through the HTTP client), S3IndexStore against the in-harness S3 endpoint (GetIndex; StoreIndex = multipart upload in 1/4 of these) or SFTPIndexStore against the pkg/sftp server behind the ssh shim (GetIndex and StoreIndex) it must equal what was written; then EVERY strict prefix (stream, files <= 9000 bytes; 700 evenly spaced prefixes above that) or <= 600 evenly spaced prefixes plus the boundary lengths (stores), two swapped offsets, a chunk enlarged beyond max and a flipped digest flag must each be rejected; 1/10 of the cases re-encode a casync-made fixture byte-identically; sub_evaluations = reads; distinct = distinct tapes; non-trivial = a fault was applied",
+		Rule:     "one case = generated index (0..200 chunks, 1/12 of the cases 250..1050 chunks, sizes <= max, random IDs, arbitrary extra feature flags, SHA512/256 or SHA256 process digest) written with Index.WriteTo; the bytes must parse with the independent caibx parser to the same table (tail marker offsets/sizes included); read back through a fragmenting stream reader, LocalIndexStore, RemoteHTTPIndex+HTTPIndexHandler (also stored through the HTTP client), S3IndexStore against the in-harness S3 endpoint (GetIndex; StoreIndex = multipart upload in 1/4 of these) or SFTPIndexStore against the pkg/sftp server behind the ssh shim (GetIndex and StoreIndex) it must equal what was written; then EVERY strict prefix (stream, files <= 9000 bytes; 700 evenly spaced prefixes above that) or <= 600 evenly spaced prefixes plus the boundary lengths (stores), two swapped offsets, a chunk enlarged beyond max and a flipped digest flag must each be rejected; 1/10 of the cases re-encode a casync-made fixture byte-identically; sub_evaluations = reads; distinct = distinct tapes; non-trivial = a fault was applied; StoreIndex through the local, HTTP and SFTP stores goes over an older, longer file of the same name and must leave exactly the bytes of Index.WriteTo",
 		Assumptions: []string{
 			"the round-trip half is a pure function of the index; it runs here as the fault-free configuration of the same harness (DESIGN.md C04 honest limit)",
 			"the console (stdin/stdout) index store is exercised at process level only: 1/25 of the cases run the real `desync list-chunks` and `desync info` on the index file or on standard input (intact: printed table/parameters equal the index; 6 truncations, swapped offsets, oversize chunk, flipped digest flag: exit status must be non-zero) and `desync make -` (bytes on standard output == bytes written to a file == independent chunker and parser)",
